@@ -8,6 +8,7 @@ package proxy
 
 import (
 	"crypto/sha1"
+	"runtime"
 	"encoding/json"
 	"fmt"
 	"os"
@@ -42,12 +43,12 @@ func (e *vfRouteExec) enabled() []string {
 	var out []string
 	sc := e.sc
 	for _, t := range e.tgt {
-		if len(t.incoming) == 0 {
+		if c := t.cur(); c == nil || c.broken || c.returned {
 			out = append(out, fmt.Sprintf("openT:%d", t.idx))
 		}
 	}
 	for _, s := range e.src {
-		if len(s.incoming) == 0 {
+		if s.needsOpen() {
 			out = append(out, fmt.Sprintf("openS:%d", s.idx))
 		}
 	}
@@ -56,7 +57,7 @@ func (e *vfRouteExec) enabled() []string {
 		if p == nil || !p.alive() {
 			continue
 		}
-		if s.pos < len(sc.Scripts[s.idx-1]) {
+		if s.pos < len(s.script) {
 			out = append(out, fmt.Sprintf("emit:%d", s.idx))
 		}
 		if s.wmUsed < sc.MaxWM {
@@ -103,7 +104,7 @@ func (e *vfRouteExec) apply(a string) error {
 		e.openSource(e.src[arg(1)-1])
 	case "emit":
 		s := e.src[arg(1)-1]
-		if s.pull() == nil || s.pos >= len(e.sc.Scripts[s.idx-1]) {
+		if s.pull() == nil || s.pos >= len(s.script) {
 			return fmt.Errorf("action %s not enabled", a)
 		}
 		e.emit(s)
@@ -156,13 +157,13 @@ func (e *vfRouteExec) closingPhase(wait func(), K int) int {
 		}
 	}
 	for _, s := range e.src {
-		if p := s.pull(); p == nil || !p.alive() {
+		if s.needsOpen() {
 			e.openSource(s)
 			wait()
 		}
 	}
 	for _, s := range e.src {
-		for s.pull() != nil && s.pos < len(e.sc.Scripts[s.idx-1]) {
+		for s.pull() != nil && s.pull().alive() && s.pos < len(s.script) {
 			e.emit(s)
 			wait()
 		}
@@ -204,7 +205,7 @@ func (e *vfRouteExec) closingPhase(wait func(), K int) int {
 }
 
 func (e *vfRouteExec) checkEnd(rounds int) {
-	if rounds == 0 {
+	if rounds == 0 && e.faults == 0 {
 		var st []string
 		for _, s := range e.src {
 			last := int64(-1)
@@ -265,6 +266,10 @@ func vfRunRoute(t *testing.T, job *vfRouteJob) (out vfRouteOut) {
 			out.Outcome = strings.Join(acks, "|")
 			if stuck := e.teardown(wait); len(stuck) > 0 {
 				e.violate("C08", "handler-stuck-after-shutdown", fmt.Sprintf("handlers still running after lifetime cancel and stream cancel: %v", stuck))
+			}
+			if job.Trace && os.Getenv("VERIF_DEBUG_STACKS") != "" {
+				buf := make([]byte, 1<<20)
+				os.Stderr.Write(buf[:runtime.Stack(buf, true)])
 			}
 			out.Violations = e.viol
 			if job.Trace || len(e.viol) > 0 {
